@@ -144,6 +144,8 @@ pub struct Ctx {
     pub failed: AtomicBool,
     /// violations reported (with their own VIOLATION lines and replay files) by child processes of this run
     pub side_violations: std::sync::atomic::AtomicU64,
+    /// Some((k, n)): this process is child k of n of a chunked run and does 1/n of the generated cases
+    pub chunk: Option<(usize, usize)>,
 }
 
 pub fn hash_of<T: Hash + ?Sized>(t: &T) -> u64 {
@@ -172,6 +174,23 @@ impl Ctx {
             known: Known::load(),
             failed: AtomicBool::new(false),
             side_violations: std::sync::atomic::AtomicU64::new(0),
+            chunk: None,
+        }
+    }
+
+    /// This process's share of `total` generated cases (all of them unless it is one chunk of a chunked run).
+    pub fn share(&self, total: u32) -> u32 {
+        match self.chunk {
+            None => total,
+            Some((k, n)) => total / n as u32 + if (k as u32) < total % n as u32 { 1 } else { 0 },
+        }
+    }
+
+    /// A generator salt that differs between the chunks of a chunked run.
+    pub fn salt_of(&self, base: u64) -> u64 {
+        match self.chunk {
+            None => base,
+            Some((k, _)) => base + 100_003 * (k as u64 + 1),
         }
     }
 
@@ -286,6 +305,15 @@ impl Ctx {
             true
         } else {
             false
+        }
+    }
+
+    /// Count occurrences of a listed known finding reported by a child process.
+    pub fn known_hit(&self, sig: &str, n: u64) {
+        if let Some(text) = self.known.lookup(&self.id, sig) {
+            let mut g = self.inner.lock().unwrap();
+            let e = g.known_hits.entry(sig.to_string()).or_insert((0, text.to_string()));
+            e.0 += n;
         }
     }
 
@@ -631,4 +659,112 @@ impl Drop for TmpDir {
     fn drop(&mut self) {
         let _ = std::fs::remove_dir_all(&self.0);
     }
+}
+
+
+/// Runs a check as `nchunks` child processes of this binary (`hv worker chunk <ID> <tier> <k> <n>`), one after the other,
+/// each doing 1/n of the generated cases, and merges their summaries into `ctx`. For checks that start thousands of
+/// applications: every started thread pool leaves its detached recovery thread behind, so one process cannot start them all.
+pub fn run_chunked(ctx: &Ctx, nchunks: usize) {
+    let exe = match std::env::current_exe() {
+        Ok(e) => e,
+        Err(e) => {
+            ctx.inconclusive(&format!("chunked run: cannot find own executable: {}", e));
+            return;
+        }
+    };
+    let mut printed: std::collections::HashSet<String> = std::collections::HashSet::new();
+    for k in 0..nchunks {
+        if ctx.has_failed() {
+            break;
+        }
+        let path = format!("{}/target/chunk-{}-{}.json", VERIF_DIR, ctx.id, k);
+        let _ = std::fs::remove_file(&path);
+        let out = std::process::Command::new(&exe).args(["worker", "chunk", &ctx.id, ctx.tier.name(), &k.to_string(), &nchunks.to_string()]).env("VERIF_SEED", ctx.seed.to_string()).output();
+        let out = match out {
+            Ok(o) => o,
+            Err(e) => {
+                ctx.inconclusive(&format!("chunked run: cannot start child: {}", e));
+                break;
+            }
+        };
+        let text = String::from_utf8_lossy(&out.stdout);
+        let lines: Vec<&str> = text.lines().collect();
+        let mut i = 0;
+        while i < lines.len() {
+            let l = lines[i];
+            if l.starts_with("VIOLATION") {
+                let sig = lines.get(i + 1).map(|x| x.trim().to_string()).unwrap_or_default();
+                let fresh = printed.insert(sig);
+                let mut m = i;
+                loop {
+                    if fresh {
+                        println!("{}", lines[m]);
+                    }
+                    m += 1;
+                    if m >= lines.len() || !(lines[m].starts_with("  signature") || lines[m].starts_with("  detail")) {
+                        break;
+                    }
+                }
+                i = m;
+                continue;
+            }
+            i += 1;
+        }
+        let v: J = match std::fs::read_to_string(&path).ok().and_then(|t| serde_json::from_str(&t).ok()) {
+            Some(v) => v,
+            None => {
+                ctx.inconclusive(&format!("chunked run: child {} of {} left no summary (exit {:?})", k, nchunks, out.status.code()));
+                continue;
+            }
+        };
+        let _ = std::fs::remove_file(&path);
+        let cov = &v["coverage"];
+        ctx.bulk_n(cov["evaluations"].as_u64().unwrap_or(0), cov["distinct_nontrivial"].as_u64().unwrap_or(0));
+        if let Some(l) = cov["labels"].as_object() {
+            for (name, n) in l {
+                ctx.label(name, n.as_u64().unwrap_or(0));
+            }
+        }
+        if let Some(sm) = cov["samples"].as_array() {
+            for x in sm {
+                ctx.sample(x["class"].as_str().unwrap_or("case"), || x["case"].clone());
+            }
+        }
+        if let Some(ex) = cov["excluded"].as_object() {
+            for (name, n) in ex {
+                ctx.exclude(name, n.as_u64().unwrap_or(0));
+            }
+        }
+        if let Some(inc) = cov["inconclusive"].as_array() {
+            for x in inc {
+                ctx.inconclusive(x.as_str().unwrap_or("?"));
+            }
+        }
+        if let Some(kh) = cov["known_findings_hit"].as_object() {
+            for (sig, n) in kh {
+                ctx.known_hit(sig, n.as_u64().unwrap_or(0));
+            }
+        }
+        if k == 0 {
+            if let Some(r) = cov["rule"].as_str() {
+                ctx.rule(r);
+            }
+            if let Some(a) = v["assumptions"].as_array() {
+                for x in a {
+                    ctx.assume(x.as_str().unwrap_or(""));
+                }
+            }
+            if let Some(es) = cov["exhaustive_spaces"].as_array() {
+                for x in es {
+                    ctx.exhaustive_space(x.as_str().unwrap_or(""));
+                }
+            }
+        }
+        let viol = v["violations"].as_u64().unwrap_or(0);
+        if viol > 0 {
+            ctx.side_violation(viol);
+        }
+    }
+    ctx.extra("chunked", json!({"child_processes": nchunks, "why": "every started thread pool leaves its detached recovery thread behind; the thorough tier starts more applications than one process has threads for"}));
 }
